@@ -70,8 +70,10 @@ PROPS.update({
                   ["session_auto", "session_teleop", "session_test", "session_disabled", "enabled_to_enabled_switch"], _ROBOT_LT),
     "C06": _robot("as C05, lifecycle-heavy layouts; non-trivial = a direct enabled->enabled switch or a zero/one-iteration session; distinct = distinct expected callback-role sequence",
                   ["zero_iteration_session", "one_iteration_session", "enabled_to_enabled_switch", "test_to_enabled_switch", "ended_by_endCompetition_event"], _ROBOT_LT),
-    "C07": _robot("as C05 plus raise events at the property's callback sites (first / later / every visit, 1-3 sites, FMS attached or not, FMS flips); non-trivial = a fault fired at a reached site; distinct = distinct expected callback-role sequence",
-                  ["faults_swallowed_run", "exception_left_robot_program"], _ROBOT_LT),
+    "C07": _robot("systematic part: the full product of 3 fixed robot layouts x every call site of the property's list (component on_enable/on_disable/execute, mode init/periodic hooks incl. robotPeriodic and teleopPeriodic-in-autonomous, feedback getters, autonomous mode on_enable/on_iteration/on_disable) x 6 mode schedules (teleop, auto, test, disabled, teleop->auto->test->teleop tour, auto ended by endCompetition) x fault at first / third / every visit x FMS attached / not = 1980 cases (thorough tier runs all of them first, quick tier a 700-case stride sample); then seeded random robots with 1-3 simultaneous faulty sites, FMS flips, stalls and packets inside callbacks; non-trivial = a fault fired at a reached site; distinct = distinct enumeration case, or distinct expected callback-role sequence for random runs",
+                  ["faults_swallowed_run", "exception_left_robot_program", "enumerated_cases_fault_reached"],
+                  "fault enumeration over the product of call site x mode schedule x visit x FMS state on fixed layouts, followed by seeded random multi-fault lifetimes; oracle: with the FMS attached the observed callback log equals the expected log in which every other callback still runs in order and the loop keeps iterating, without the FMS the injected exception object leaves startCompetition() at exactly that call; enumeration is complete over the stated product only, the rest is sampling",
+                  level="fault_enumeration"),
     "C10": _robot("as C05 plus assignments to marked/unmarked attributes from teleopPeriodic / mode / components and raising callbacks; non-trivial = enabled iterations with markers present; distinct = distinct expected callback-role sequence",
                   ["iterations"], _ROBOT_LT),
     "C11": _robot("as C05 with feedback-heavy layouts and raising getters; non-trivial = feedbacks present and at least 2 modes with iterations; distinct = distinct expected callback-role sequence",
